@@ -40,6 +40,11 @@ func raceC15(seed uint64, from, n int, out string) {
 			wg.Add(1)
 			go func(j *job) {
 				defer wg.Done()
+				defer func() {
+					if p := recover(); p != nil {
+						j.got = fmt.Sprintf("PANIC: %v", p)
+					}
+				}()
 				<-start
 				for rep := 0; rep < 2; rep++ {
 					d, err := deb.Load(bytes.NewReader(j.img), "x.deb")
